@@ -406,6 +406,48 @@ where
     }
 }
 
+/// Like `run_observed`, but on a *used* state: the configuration is first run to completion (unobserved, on `warmup`, an
+/// equal instance with its own instrument) and the audited run then starts on the state that run left behind, with the
+/// population stack emptied and a freshly seeded generator - the situation of a caller that drives several runs or
+/// restarts through `Configuration::run` on one state. Everything a run relies on is (re)initialised by the components'
+/// `init`, so the audited run must satisfy exactly what a run on a fresh state satisfies.
+pub fn run_observed_warm<P, A>(cfg: &Configuration<P>, warmup: &P, problem: &P, seed: u64, eval: EvalKind, audit: Arc<Mutex<A>>) -> Result<State<'static, P>, String>
+where
+    P: Instrumented + 'static,
+    A: Audit<P> + 'static,
+{
+    let mut state = match run_plain(cfg, warmup, seed ^ 0x5bd1_e995, eval) {
+        Ok(s) => s,
+        Err(e) => return Err(format!("warm-up run: {e}")),
+    };
+    while state.populations_mut().try_pop().is_some() {}
+    state.insert(Random::new(seed));
+    state.insert(StepObserver::<P>(Box::new(Obs { audit, names: HashMap::new(), stack: Vec::new(), main_body: None, _p: std::marker::PhantomData })));
+    match catch(|| cfg.run(problem, &mut state)) {
+        Ok(Ok(())) => Ok(state),
+        Ok(Err(e)) => Err(format!("Err: {e:#}")),
+        Err(p) => Err(format!("PANIC: {p}")),
+    }
+}
+
+/// `true` for the runs (one seed in four) that are audited on a used state, see `run_observed_warm`.
+pub fn is_warm(seed: u64) -> bool {
+    seed.wrapping_mul(0x9E37_79B9_7F4A_7C15) >> 62 == 3
+}
+
+/// `run_observed`, or for one seed in four `run_observed_warm`.
+pub fn run_observed_auto<P, A>(cfg: &Configuration<P>, problem: &P, seed: u64, eval: EvalKind, audit: Arc<Mutex<A>>) -> Result<State<'static, P>, String>
+where
+    P: Instrumented + 'static,
+    A: Audit<P> + 'static,
+{
+    if is_warm(seed) {
+        run_observed_warm(cfg, &problem.fresh_copy(), problem, seed, eval, audit)
+    } else {
+        run_observed(cfg, problem, seed, eval, audit)
+    }
+}
+
 /// Plain run without observer.
 pub fn run_plain<P>(cfg: &Configuration<P>, problem: &P, seed: u64, eval: EvalKind) -> Result<State<'static, P>, String>
 where
